@@ -46,12 +46,36 @@ def _ls_module():
     return _LS
 
 
-def uri_of(root: Path, name: str) -> str:
-    return f"file://{root}/{name}.pydjinni"
+def encode_uri(path: str, style: str = "py") -> str:
+    """the `file:` URI of an absolute path as a client spells it. `py`: what `Path.as_uri()` writes (everything outside
+    `[A-Za-z0-9_.~/-]` percent-encoded as UTF-8, upper-case hex); `lower`: the same with lower-case hex digits (RFC 3986 calls
+    the two equivalent, as strings they differ); `min`: only the characters that cannot stand in a URI path are encoded
+    (blank, `%`, `#`, `?`), non-ASCII letters and `+` are sent as they are."""
+    from urllib.parse import quote
+    import re
+    if style == "min":
+        return "file://" + "".join("%%%02X" % ord(c) if c in ' %#?"<>' else c for c in path)
+    q = quote(path)
+    if style == "lower":
+        q = re.sub(r"%[0-9A-F]{2}", lambda m: m.group(0).lower(), q)
+    return "file://" + q
+
+
+def uri_of(root: Path, name: str, scn=None) -> str:
+    """URI of the document with key `name`: the scenario may give the document another file name (blanks, non-ASCII letters,
+    `#`, `%`, `+` — everything a client percent-encodes) and a spelling style"""
+    stem = (scn or {}).get("names", {}).get(name, name)
+    return encode_uri(f"{root}/{stem}.pydjinni", (scn or {}).get("style", "py"))
 
 
 def config_uri(root: Path) -> str:
     return (root / "pydjinni.yaml").absolute().as_uri()
+
+
+def unquote_table(uris) -> list:
+    """`urllib.parse.unquote` on the URIs of a history, as the model's `unq` parameter (rows only where it is not the identity)"""
+    from urllib.parse import unquote
+    return [[u, unquote(u)] for u in sorted(set(uris)) if unquote(u) != u]
 
 
 # ---------------------------------------------------------------------------------------------
@@ -208,7 +232,7 @@ class Session:
         from lsprotocol import types as T
         root = self.root
         k = ev["ev"]
-        u = uri_of(root, ev["u"]) if "u" in ev else None
+        u = uri_of(root, ev["u"], scn) if "u" in ev else None
         n_pub, n_err = len(self.pubs), len(self.errors)
         ans, misuse = {"a": "none"}, False
         try:
@@ -232,7 +256,7 @@ class Session:
                 ans = canon_answer(self.fm.features[T.TEXT_DOCUMENT_DOCUMENT_SYMBOL](T.DocumentSymbolParams(T.TextDocumentIdentifier(u))))
             elif k == "watched":
                 self._notify(T.WORKSPACE_DID_CHANGE_WATCHED_FILES, T.DidChangeWatchedFilesParams(
-                    [T.FileEvent(watched_uri(root, c), T.FileChangeType.Changed) for c in ev["changes"]]))
+                    [T.FileEvent(watched_uri(root, c, scn), T.FileChangeType.Changed) for c in ev["changes"]]))
             elif k == "disk":
                 apply_disk(root, ev["files"])
             else:
@@ -243,8 +267,8 @@ class Session:
                 "error_text": self.errors[n_err:][:2]}
 
 
-def watched_uri(root: Path, c: str) -> str:
-    return config_uri(root) if c == "<config>" else (root / c).as_uri()
+def watched_uri(root: Path, c: str, scn=None) -> str:
+    return config_uri(root) if c == "<config>" else encode_uri(str(root / c), (scn or {}).get("style", "py"))
 
 
 def apply_disk(root: Path, files: dict):
@@ -267,17 +291,27 @@ def reset_disk(root: Path, scn):
     apply_disk(root, scn.get("disk", {}))
 
 
-def model_events(root: Path, events):
+def model_events(root: Path, events, scn=None):
     """the event list as the Lean model takes it (URIs spelled out, disk events without their payload)"""
     out = []
     for ev in events:
         e = {k: v for k, v in ev.items() if k != "files"}
         if "u" in e:
-            e["u"] = uri_of(root, e["u"])
+            e["u"] = uri_of(root, e["u"], scn)
         if e["ev"] == "watched":
-            e["changes"] = [watched_uri(root, c) for c in ev["changes"]]
+            e["changes"] = [watched_uri(root, c, scn) for c in ev["changes"]]
         out.append(e)
     return out
+
+
+def model_unq(root: Path, events, scn=None) -> list:
+    """the percent-decoder on every URI the history mentions"""
+    uris = []
+    for e in model_events(root, events, scn):
+        if "u" in e:
+            uris.append(e["u"])
+        uris += e.get("changes", [])
+    return unquote_table(uris)
 
 
 def front_table(root: Path, scn, events) -> list[dict]:
@@ -291,7 +325,7 @@ def front_table(root: Path, scn, events) -> list[dict]:
 
     def fill():
         for name, t in uts:
-            table.append({"e": epoch, "u": uri_of(root, name), "t": t, "r": oracle(uri_of(root, name), scn["texts"][t])})
+            table.append({"e": epoch, "u": uri_of(root, name, scn), "t": t, "r": oracle(uri_of(root, name, scn), scn["texts"][t])})
     fill()
     for ev in events:
         if ev["ev"] == "disk":
